@@ -238,6 +238,50 @@ def library_signed_traces(run, n, owner):
     run.extra["library_signed_envelopes"] = len(traces)
 
 
+def inplace_histories(run, n, owner):
+    """Histories on ONE envelope object: verify, edit the payload in place, re-sign (library signer or an independent
+    one), verify again ... every call judged from its own arguments."""
+    signing, common = lib.cct("signing"), lib.cct("common")
+    fn = lib.cct("authentication").verify_signable
+    keys = gamma.Keys(NK, run.seed, offset=250)
+    r = random.Random(run.seed * 37 + 11)
+    traces, conc = [], {}
+    for tid in range(1, n + 1):
+        P, Q = gamma.make_payloads(r)
+        if not isinstance(P, dict):
+            P = {"p": P}
+        env = signing.wrap_as_signable(P)
+        ks = r.sample(range(1, NK + 1), r.randint(1, 3))
+        evs, cs = [], []
+
+        def sign_all():
+            for k in ks:
+                if r.random() < 0.5:
+                    signing.sign_signable(env, common.PrivateKey.from_bytes(keys.seeds[k]))
+                else:
+                    env["signatures"][keys.pub[k]] = {"signature": keys.sign(k, twin_canon(env["signed"])).hex()}
+        sign_all()
+        for step in range(r.randint(2, 4)):
+            auth = [keys.pub[k] for k in ks]
+            r.shuffle(auth)
+            thr = r.randint(1, len(ks))
+            out, exc, _ = lib.call(fn, env, auth, thr, gpg=False)      # the SAME object every time
+            run.evaluations += 1
+            ev = alpha_call(env, auth, thr, False, out)
+            if ev:
+                evs.append(ev)
+                cs.append({"envelope": copy.deepcopy(env), "authorized": auth, "threshold": thr, "gpg": False, "observed": out, "exc": exc,
+                           "note": "same envelope object verified repeatedly with in-place edits and re-signing in between"})
+            env["signed"]["edit-%d" % step] = r.randint(0, 9)               # in-place edit of the payload
+            if r.random() < 0.7:
+                sign_all()                                                 # re-signed: must verify again
+        if evs:
+            traces.append({"id": tid, "events": evs})
+            conc[tid] = cs
+    judge(run, traces, conc, owner, label="in-place history")
+    run.extra["inplace_histories"] = len(traces)
+
+
 def fixture_traces(run, owner):
     """Signed fixtures shipped with the repository (earlier releases' signatures must stay valid)."""
     from .core import REPO
